@@ -117,10 +117,24 @@ func (iq *IndexQuery) FetchCollection(db *badger.DB) ([]string, error) {
 		defer it.Close()
 		seek := queryPrefix
 		if iq.Reverse {
-			// In reverse, seek to the last key with the prefix
-			seek = append(append(make([]byte, 0, qplen+1), queryPrefix...), 0xFF)
+			// In reverse, seek to the first key that may follow the keys with
+			// the prefix. The prefix always contains the name separator (':'),
+			// so it has a byte that can be incremented.
+			seek = append(make([]byte, 0, qplen), queryPrefix...)
+			for i := qplen - 1; i >= 0; i-- {
+				if seek[i] != 0xFF {
+					seek[i]++
+					seek = seek[:i+1]
+					break
+				}
+			}
 		}
-		for it.Seek(seek); it.ValidForPrefix(queryPrefix); it.Next() {
+		it.Seek(seek)
+		if iq.Reverse && it.Valid() && bytes.Equal(it.Item().Key(), seek) {
+			// A key equal to the seek key is not part of the prefix
+			it.Next()
+		}
+		for ; it.ValidForPrefix(queryPrefix); it.Next() {
 			k := it.Item().Key()
 			idx := bytes.LastIndexByte(k, idSeparator)
 			if idx < 0 {
